@@ -363,3 +363,8 @@ _amend("C16", "rule", "a single-edit mutant, a field-path fault,", "a single-edi
 _amend("C16", "rule", "supplied as annotation, service config or both.", "supplied as annotation, service config or both. All generated methods share the short name Mth (only full names differ).")
 _amend("C18", "rule", "transport (HTTP POST/GET, gRPC, gRPC-web),", "transport (HTTP POST/GET - the GET optionally with a stray body the binding does not map -, gRPC, gRPC-web), local service or RegisterConn-proxied backend, handler header/trailer metadata,")
 _amend("C19", "rule", "plus unknown and absent service).", "plus unknown and absent service; 1 case in 8 also follows a service through the documented WebSocket binding and must see its current and every later status).")
+
+# native coverage-guided fuzzing of the same generators (thorough tier only)
+for _k, _t in (("C01", "FuzzRoute"), ("C03", "FuzzTranscode"), ("C16", "FuzzRegister"), ("C17", "FuzzCodec")):
+    PROPS[_k]["fuzz"] = {"target": _t, "seconds": 120}
+    PROPS[_k]["technique"] += "; the thorough tier also drives the same generator with Go's native coverage-guided fuzzer (rapid.MakeFuzz, 120 s on all cores)"
